@@ -24,7 +24,8 @@ for d in sorted(os.listdir(os.path.join(V, "seeded")), key=_key):
             what = [l for l in txt.splitlines() if l.startswith(pid + ":")]
             res.append("**%s**: %s — %s" % (pid, kind, re.sub(r"\|", "/", (what[-1][len(pid) + 2:] if what else "")[:150])))
         elif ": ok (" in txt:
-            res.append("**%s**: MISSED (check passed)" % pid)
+            own = m.get("property") or d.split("_")[0]
+            res.append("**%s**: MISSED (check passed)" % pid if pid == own else "%s: passes (cross-check of another property, earlier run)" % pid)
         else:
             res.append("**%s**: check did not complete" % pid)
     rows.append("| `%s` | %s | %s |" % (d, summ.replace("|", "/"), "<br>".join(res) or "not re-run"))
